@@ -25,10 +25,6 @@ namespace C06
 def Sound {F : Type} (v : Variant) (cfg : Cfg) (hit : F → F → Bool) : Prop :=
   0 < bumpInit v cfg ∧ ∀ a b, hit a b = true → a = b
 
-/-- `_cache_nsgrad_i` never stems from another trial -/
-def NsgInv {D S F : Type} (st : St D S F) : Prop :=
-  ∀ d s q, st.nsg = some (d, s, q) → d = st.data ∧ s = st.src
-
 end C06
 
 section main
@@ -51,7 +47,11 @@ theorem c06_cache_valid_inv (W : World D S F) (v : Variant) (hit : F → F → B
     have := hs.1
     simp only [step, changeSource, initTrial]
     omega
-  | evaluate q => exact (evalC_spec W hit hs.2 cfg st q h).2.1
+  | evaluate q =>
+    simp only [step, evalE]
+    split
+    · exact (evalC_spec W hit hs.2 cfg st q h).2.1
+    · exact ⟨h.interp_le, h.interp_ok, h.pdc_ok, h.bkg_ok⟩
   | grad2 => exact h
 
 /-- the invariant holds after every history that starts from a freshly built object graph -/
@@ -72,7 +72,13 @@ theorem c06_current_data_src (W : World D S F) (v : Variant) (hit : F → F → 
   | nil => exact ⟨rfl, rfl⟩
   | cons op ops ih =>
     have := ih (step W v hit cfg st op).1
-    cases op <;> exact this
+    cases op with
+    | evaluate q =>
+      have hd : (step W v hit cfg st (.evaluate q)).1.data = st.data ∧
+          (step W v hit cfg st (.evaluate q)).1.src = st.src := by
+        simp only [step, evalE]; split <;> exact ⟨rfl, rfl⟩
+      rw [hd.1, hd.2] at this; exact this
+    | _ => exact this
 
 /-- **transparency**: after any history, an evaluation returns exactly what the stateless evaluator
 returns for the current data, source and query — which is also what a freshly built object graph
@@ -158,39 +164,121 @@ theorem c06_second_evaluate_hits (W : World D S F) (hit : F → F → Bool) (hr 
   obtain ⟨ic, h1, h2, h3⟩ := key
   simp only [evalC, interpCall, h1, h2, h3, and_self, if_true]
 
+/-! ### every evaluate of a history, including failing ones -/
+
+/-- **trace theorem**: along any history every evaluate (not only a final one) answers with the
+stateless evaluator on the data / source of the last initTrial / changeSource before it, and raises
+exactly when the stateless evaluator raises (point outside the grid).  A deterministic client that
+chooses its next query from the answers so far (a minimiser) therefore sees the same sequence on a
+used and on a fresh object graph. -/
+theorem c06_trace (W : World D S F) (v : Variant) (hit : F → F → Bool) (cfg : Cfg)
+    (hs : Sound v cfg hit) (ops : List (Op D S F)) (st : St D S F) (h : Inv W cfg.parabola st) :
+    (run W v hit cfg st ops).2.map Res.vals = pureTrace W cfg.parabola st.data st.src ops := by
+  induction ops generalizing st with
+  | nil => rfl
+  | cons op ops ih =>
+    have hinv := c06_cache_valid_inv W v hit cfg hs st op h
+    have := ih _ hinv
+    cases op with
+    | initTrial d => simpa [run, pureTrace, step, Res.vals, initTrial] using this
+    | changeSource s => simpa [run, pureTrace, step, Res.vals, changeSource, initTrial] using this
+    | grad2 =>
+      simp only [run, pureTrace, List.map_cons]
+      refine congrArg₂ _ ?_ this
+      simp only [step]; split <;> rfl
+    | evaluate q =>
+      simp only [run, pureTrace, List.map_cons]
+      have hd : (step W v hit cfg st (.evaluate q)).1.data = st.data ∧
+          (step W v hit cfg st (.evaluate q)).1.src = st.src := by
+        simp only [step, evalE]; split <;> exact ⟨rfl, rfl⟩
+      rw [hd.1, hd.2] at this
+      refine congrArg₂ _ ?_ this
+      have hv := (evalC_spec W hit hs.2 cfg st q h).1
+      by_cases hq : queryOk W cfg.parabola q = true
+      · simp [step, evalE, evalPureE, hq, Res.vals, hv]
+      · simp [step, evalE, evalPureE, hq, Res.vals]
+
+/-- the trace of a used object graph is the trace of a fresh one -/
+theorem c06_trace_fresh (W : World D S F) (v : Variant) (hit : F → F → Bool) (cfg : Cfg)
+    (hs : Sound v cfg hit) (d0 : D) (s0 : S) (ops : List (Op D S F)) :
+    (run W v hit cfg (fresh d0 s0) ops).2.map Res.vals = pureTrace W cfg.parabola d0 s0 ops :=
+  c06_trace W v hit cfg hs ops _ (inv_fresh W cfg.parabola d0 s0)
+
 /-! ### second derivative (`_cache_nsgrad_i`) -/
 
-/-- with the reset in `initialize_for_new_trial`, the cached per-event ns-gradients always belong
-to the current trial data and source -/
-theorem c06_grad2_current_trial (W : World D S F) (v : Variant) (hit : F → F → Bool) (cfg : Cfg)
-    (hr : v.resetNsgrad = true) (ops : List (Op D S F)) (st : St D S F) (h : NsgInv st) :
-    NsgInv (runSt W v hit cfg st ops) := by
-  induction ops generalizing st with
+/-- generalised form: the remembered evaluation is `lastEval` of the history, tagged with the
+*current* data and source -/
+theorem C06.nsg_run (W : World D S F) (v : Variant) (hit : F → F → Bool) (cfg : Cfg)
+    (hr : v.resetNsgrad = true) (ops : List (Op D S F)) (st : St D S F) (r : Option (Query F))
+    (h : st.nsg = r.map (fun q => (st.data, st.src, q))) :
+    let st' := runSt W v hit cfg st ops
+    st'.nsg = (lastEval W cfg.parabola v.clearNsgOnEval r ops).map (fun q => (st'.data, st'.src, q)) := by
+  induction ops generalizing st r with
   | nil => exact h
   | cons op ops ih =>
-    apply ih
     cases op with
-    | initTrial d => intro d' s' q' hq; simp [step, initTrial, hr] at hq
-    | changeSource s => intro d' s' q' hq; simp [step, changeSource, initTrial, hr] at hq
+    | initTrial d => exact ih _ none (by simp [step, initTrial, hr])
+    | changeSource s => exact ih _ none (by simp [step, changeSource, initTrial, hr])
+    | grad2 => exact ih _ r h
     | evaluate q =>
-      intro d' s' q' hq
-      simp only [step, evalC, Option.some.injEq, Prod.mk.injEq] at hq
-      exact ⟨hq.1.symm, hq.2.1.symm⟩
-    | grad2 => exact h
+      refine ih _ _ ?_
+      simp only [step, evalE]
+      split
+      · simp [evalC]
+      · split
+        · simp
+        · simpa using h
 
-/-- evaluate, then second derivative: it is the second derivative of *that* evaluation -/
-theorem c06_grad2_after_evaluate (W : World D S F) (v : Variant) (hit : F → F → Bool) (cfg : Cfg)
-    (st : St D S F) (q : Query F) :
-    (step W v hit cfg (step W v hit cfg st (.evaluate q)).1 .grad2).2 = .grad2Of st.data st.src q :=
-  rfl
+/-- **history-level second-derivative theorem.**  After any history the second derivative is that of
+the last successful evaluation *of the current trial* (its ns and parameter point are part of the
+token) on the current data and source, and the call is refused when there is none — whether the
+trial was initialised on new data, on the same data again, or the source changed, and (with
+`clearNsgOnEval`) also when the last evaluation of the trial failed. -/
+theorem c06_grad2_transparent (W : World D S F) (v : Variant) (hit : F → F → Bool) (cfg : Cfg)
+    (hr : v.resetNsgrad = true) (d0 : D) (s0 : S) (ops : List (Op D S F)) :
+    (step W v hit cfg (runSt W v hit cfg (fresh d0 s0) ops) .grad2).2 =
+      match lastEval W cfg.parabola v.clearNsgOnEval none ops with
+      | some q => .grad2Of (lastData d0 ops) (lastSrc s0 ops) q
+      | none => .error := by
+  have h := C06.nsg_run W v hit cfg hr ops (fresh d0 s0) none (by simp [fresh])
+  have hds := c06_current_data_src W v hit cfg ops (fresh d0 s0 : St D S F)
+  simp only at h
+  simp only [step, runSt] at h ⊢
+  rw [h]
+  cases lastEval W cfg.parabola v.clearNsgOnEval none ops with
+  | none => rfl
+  | some q =>
+    simp only [Option.map_some]
+    rw [show (run W v hit cfg (fresh d0 s0) ops).1 = runSt W v hit cfg (fresh d0 s0) ops from rfl,
+      hds.1, hds.2]
+    rfl
 
-/-- a used object behaves like a fresh one also for the premature call: after a new trial the
-second derivative is refused until the likelihood has been evaluated -/
-theorem c06_grad2_after_init_error (W : World D S F) (v : Variant) (hit : F → F → Bool) (cfg : Cfg)
-    (hr : v.resetNsgrad = true) (st : St D S F) (d : D) :
-    (step W v hit cfg (step W v hit cfg st (.initTrial d)).1 .grad2).2 = .error ∧
-    (step W v hit cfg (fresh d st.src) .grad2).2 = .error := by
-  simp [step, initTrial, hr, fresh]
+/-- two histories ending on the same data, source and last evaluation of the current trial get the
+same second derivative (in particular: a used object and a fresh one that replays only that
+evaluation) -/
+theorem c06_grad2_history_independent (W : World D S F) (v : Variant) (hit : F → F → Bool)
+    (cfg : Cfg) (hr : v.resetNsgrad = true) (d0 d0' : D) (s0 s0' : S) (ops ops' : List (Op D S F))
+    (hd : lastData d0 ops = lastData d0' ops') (hsrc : lastSrc s0 ops = lastSrc s0' ops')
+    (he : lastEval W cfg.parabola v.clearNsgOnEval none ops =
+      lastEval W cfg.parabola v.clearNsgOnEval none ops') :
+    (step W v hit cfg (runSt W v hit cfg (fresh d0 s0) ops) .grad2).2 =
+    (step W v hit cfg (runSt W v hit cfg (fresh d0' s0') ops') .grad2).2 := by
+  rw [c06_grad2_transparent W v hit cfg hr, c06_grad2_transparent W v hit cfg hr, hd, hsrc, he]
+
+/-- after a failed evaluation the second derivative is refused, whatever was evaluated before —
+exactly what a fresh object does after the same failed evaluation -/
+theorem c06_failed_evaluate (W : World D S F) (v : Variant) (hit : F → F → Bool) (cfg : Cfg)
+    (hr : v.resetNsgrad = true) (hc : v.clearNsgOnEval = true) (d0 : D) (s0 : S)
+    (ops : List (Op D S F)) (q : Query F) (hq : queryOk W cfg.parabola q = false) :
+    (step W v hit cfg (runSt W v hit cfg (fresh d0 s0) (ops ++ [.evaluate q])) .grad2).2 = .error := by
+  rw [c06_grad2_transparent W v hit cfg hr]
+  have : ∀ (r : Option (Query F)) (l : List (Op D S F)),
+      lastEval W cfg.parabola v.clearNsgOnEval r (l ++ [.evaluate q]) = none := by
+    intro r l
+    induction l generalizing r with
+    | nil => simp [lastEval, hq, hc]
+    | cons op l ih => cases op <;> simp only [List.cons_append, lastEval] <;> exact ih _
+  rw [this]
 
 end main
 
@@ -255,6 +343,14 @@ theorem c06_datafield_counterexample :
 theorem c06_datafield_reset_for_current_source : Gen.C06.resetFields = true := by
   simp [Gen.C06.resetFields]
 
+/-- the data-field theorem stated for the flag of the current source -/
+theorem c06_datafield_transparent_for_current_source {D S P V : Type} [DecidableEq P]
+    (f : D → S → P → V) (d : D) (s : S) (ops : List (FieldOp D S P)) (p : P) :
+    let st' := (fieldRun f Gen.C06.resetFields (fieldFresh d s) ops).1
+    (fieldCalc f st' p).2 = f st'.data st'.src p := by
+  rw [c06_datafield_reset_for_current_source]
+  exact c06_datafield_transparent f ops _ (c06_datafield_fresh_inv f d s) p
+
 
 section current
 variable {F : Type} [DecidableEq F] [Add F] [Sub F] [Mul F] [Div F] [LT F] [DecidableLT F] [LE F]
@@ -276,6 +372,30 @@ theorem c06_sound_for_current_source (cfg : Cfg) :
 theorem c06_reset_for_current_source : Gen.C06.variant.resetNsgrad = true := by
   simp [Gen.C06.variant, Gen.C06.resetNsgrad]
 
+theorem c06_clear_for_current_source : Gen.C06.variant.clearNsgOnEval = true := by
+  simp [Gen.C06.variant, Gen.C06.clearNsgOnEval]
+
+/-- the second-derivative theorem for the code as it is now: last successful evaluation of the
+current trial, refused after a new trial / source change / failed evaluation -/
+theorem c06_grad2_transparent_for_current_source {D S : Type} (W : World D S F) (cfg : Cfg) (d0 : D)
+    (s0 : S) (ops : List (Op D S F)) :
+    let hit : F → F → Bool := hitOf Gen.C06.variant cfg
+    (step W Gen.C06.variant hit cfg (runSt W Gen.C06.variant hit cfg (fresh d0 s0) ops) .grad2).2 =
+      match lastEval W cfg.parabola true none ops with
+      | some q => .grad2Of (lastData d0 ops) (lastSrc s0 ops) q
+      | none => .error := by
+  intro hit
+  have h := c06_grad2_transparent W Gen.C06.variant hit cfg c06_reset_for_current_source d0 s0 ops
+  rw [c06_clear_for_current_source] at h
+  exact h
+
+/-- every evaluate of every history, for the code as it is now -/
+theorem c06_trace_for_current_source {D S : Type} (W : World D S F) (cfg : Cfg) (d0 : D) (s0 : S)
+    (ops : List (Op D S F)) :
+    (run W Gen.C06.variant (hitOf Gen.C06.variant cfg) cfg (fresh d0 s0) ops).2.map Res.vals =
+      pureTrace W cfg.parabola d0 s0 ops :=
+  c06_trace_fresh W Gen.C06.variant _ cfg (c06_sound_for_current_source cfg) d0 s0 ops
+
 /-- transparency for the code as it is now, without any hypothesis -/
 theorem c06_transparent_for_current_source {D S : Type} (W : World D S F) (cfg : Cfg) (d0 : D)
     (s0 : S) (ops : List (Op D S F)) (q : Query F) :
@@ -295,10 +415,15 @@ local instance : OfScientific Int := ⟨fun m s e => if s then m / 10 ^ e else m
 
 /-- signal PDF value `d + g`, resp. `g²`; background 1; unit grid -/
 def C06.W0 : World Nat Nat Int :=
-  { man := fun d _ _ g => [(d : Int) + g], bkg := fun _ _ => [1], up := (· + 1), lo := (· - 1), dx := 1 }
+  { man := fun d _ _ g => [(d : Int) + g], bkg := fun _ _ => [1], up := (· + 1), lo := (· - 1), dx := 1,
+    inGrid := fun _ => true }
+
+/-- `W0` with a grid that ends at 5 -/
+def C06.W2 : World Nat Nat Int := { C06.W0 with inGrid := fun g => decide (g ≤ 5) }
 
 def C06.W1 : World Nat Nat Int :=
-  { man := fun _ _ _ g => [g * g], bkg := fun _ _ => [1], up := (· + 1), lo := (· - 1), dx := 1 }
+  { man := fun _ _ _ g => [g * g], bkg := fun _ _ => [1], up := (· + 1), lo := (· - 1), dx := 1,
+    inGrid := fun _ => true }
 
 /-- `numpy.isclose` with `rtol = 1e-5`, `atol = 1e-8` on grid indices of a grid with spacing 0.1
 (both sides scaled by 10⁸): `|a-b|·10⁷ ≤ 1 + 100·|b|` -/
@@ -316,9 +441,9 @@ def C06.isError {D S F : Type} : Res D S F → Bool
 /-- (a) fails — pinned commit, `TrialDataManager` without data fields: the state id never leaves
 −1, so the second trial is answered from the first trial's interpolation cache. -/
 theorem c06_stuck_state_id_counterexample :
-    let v : Variant := ⟨false, true, true⟩
+    let v : Variant := ⟨false, true, true, true⟩
     let cfg : Cfg := ⟨false, false, false, true, false⟩
-    let q : Query Int := ⟨[0], [0]⟩
+    let q : Query Int := ⟨2, [0], [0]⟩
     let st := runSt C06.W0 v (· == ·) cfg (fresh 0 0) [.evaluate q, .initTrial 1]
     bumpInit v cfg = 0 ∧ st.sid = -1 ∧
     (evalC C06.W0 (· == ·) cfg st q).2.ratio = [[0]] ∧
@@ -327,22 +452,37 @@ theorem c06_stuck_state_id_counterexample :
 /-- (b) fails — pinned commit, Linear cache with `numpy.isclose`: grid cells 55000.0 and 55000.1
 (indices 550000, 550001) are indistinguishable, the slope of the wrong cell is returned. -/
 theorem c06_isclose_counterexample :
-    let v : Variant := ⟨true, false, true⟩
+    let v : Variant := ⟨true, false, true, true⟩
     let cfg : Cfg := ⟨false, false, false, false, false⟩
-    let st := runSt C06.W1 v C06.iscloseScaled cfg (fresh 0 0) [.evaluate ⟨[550000], [550000]⟩]
+    let st := runSt C06.W1 v C06.iscloseScaled cfg (fresh 0 0) [.evaluate ⟨2, [550000], [550000]⟩]
     C06.iscloseScaled 550000 550001 = true ∧
-    (evalC C06.W1 C06.iscloseScaled cfg st ⟨[550001], [550001]⟩).2.grad = [[1100001]] ∧
-    (evalPure C06.W1 false 0 0 ⟨[550001], [550001]⟩).2 = [[1100003]] := by decide
+    (evalC C06.W1 C06.iscloseScaled cfg st ⟨2, [550001], [550001]⟩).2.grad = [[1100001]] ∧
+    (evalPure C06.W1 false 0 0 ⟨2, [550001], [550001]⟩).2 = [[1100003]] := by decide
 
 /-- without the reset the second derivative asked for right after a new trial is that of the
 *previous* trial's data, where a fresh object refuses the call -/
 theorem c06_stale_nsgrad_counterexample :
-    let v : Variant := ⟨true, true, false⟩
+    let v : Variant := ⟨true, true, false, true⟩
     let cfg : Cfg := ⟨false, false, false, false, false⟩
-    let q : Query Int := ⟨[0], [0]⟩
+    let q : Query Int := ⟨2, [0], [0]⟩
     (run C06.W0 v (· == ·) cfg (fresh 0 0) [.evaluate q, .initTrial 1, .grad2]).2.map C06.grad2Data
       = [none, none, some 0] ∧
     (run C06.W0 v (· == ·) cfg (fresh 1 0) [.grad2]).2.map C06.isError = [true] := by decide
+
+/-- review round — `evaluate` that does not clear the cached ns-gradients first: after a *failed*
+evaluation (grid point 6 does not exist) the second derivative is that of the earlier point, where a
+fresh object that only saw the failing evaluation refuses the call.  (`c06_failed_evaluate` is the
+positive statement for the repaired code.) -/
+theorem c06_failed_evaluate_counterexample :
+    let v : Variant := ⟨true, true, true, false⟩
+    let cfg : Cfg := ⟨false, false, false, true, false⟩
+    let q : Query Int := ⟨2, [0], [0]⟩
+    let bad : Query Int := ⟨2, [5], [5]⟩
+    queryOk C06.W2 false bad = false ∧
+    (run C06.W2 v (· == ·) cfg (fresh 0 0) [.evaluate q, .evaluate bad, .grad2]).2.map C06.grad2Data
+      = [none, none, some 0] ∧
+    (run C06.W2 v (· == ·) cfg (fresh 0 0) [.evaluate bad, .grad2]).2.map C06.isError
+      = [false, true] := by decide
 
 end counterexamples
 
@@ -355,15 +495,15 @@ theorem c06_isclose_identifies_mjd_cells :
 /-! ### non-vacuity -/
 
 /-- `Sound` is inhabited by the configurations of the quantifier … -/
-example : Sound (F := Int) ⟨true, true, true⟩ ⟨false, false, false, true, false⟩ (· == ·) :=
+example : Sound (F := Int) ⟨true, true, true, true⟩ ⟨false, false, false, true, false⟩ (· == ·) :=
   ⟨by decide, fun a b h => by simpa using h⟩
 
 /-- … and, on the pinned commit, only by trial data managers *with* data fields -/
-example : Sound (F := Int) ⟨false, true, true⟩ ⟨false, false, true, true, true⟩ (· == ·) :=
+example : Sound (F := Int) ⟨false, true, true, true⟩ ⟨false, false, true, true, true⟩ (· == ·) :=
   ⟨by decide, fun a b h => by simpa using h⟩
 
-example : ¬ Sound (F := Int) ⟨false, true, true⟩ ⟨true, false, false, true, true⟩ (· == ·) := by
+example : ¬ Sound (F := Int) ⟨false, true, true, true⟩ ⟨true, false, false, true, true⟩ (· == ·) := by
   intro h; exact absurd h.1 (by decide)
 
-/-- `NsgInv` of a fresh object -/
-example : NsgInv (fresh 0 0 : St Nat Nat Int) := by intro d s q h; simp [fresh] at h
+/-- the reflexivity hypothesis of `c06_second_evaluate_hits` holds for the exact hit test -/
+example : ∀ a : Int, (fun x y : Int => x == y) a a = true := by intro a; simp
